@@ -62,8 +62,10 @@ _c('C17', 'Proved: entering DispatchTrip assigns, leaving it by any instruction 
           'a dispatched vehicle names an existing vehicle whose activity is DispatchTrip to exactly that request. PARTIAL: "at most one vehicle per request under the built-in dispatcher" decided by the dispatcher engine.',
    'Coq proof: state invariant by induction over operation histories (macro frame theorem) + translated assign/unassign kernels; correspondence; monitor')
 _c('C18', 'Proved: the update order is non-queued first then queued sorted by the injective key (enqueue_time, id); every vehicle is processed; of two queued vehicles the earlier is offered a freed plug first. '
-          'PARTIAL: the step from processing order to "never left waiting" (needs can_use) decided by correspondence + FIFO monitor.',
-   'Coq proof about the processing order (sortedness, permutation) + correspondence + FIFO trace monitor')
+          'Proved from any state satisfying the counts invariant (C18_offered_in_queue_order): while the queued vehicles are processed no plug count ever grows, so a vehicle that finds a plug free at its turn implies every '
+          'earlier vehicle of that queue found one free at its own earlier turn; a vehicle that is offered the plug and whose update goes through is charging (C18_offered_and_updated_leaves_queue). '
+          'PARTIAL: an earlier vehicle can stay waiting only if its OWN update is refused although the plug is free (hypothesis can_use): decided by correspondence + FIFO monitor.',
+   'Coq proof: processing order (sortedness, permutation) + monotone plug counts over the queued pass + correspondence + FIFO trace monitor')
 _c('C19', 'Proved: each state-changing primitive files exactly one event carrying exactly the change (move distance = odometer growth, charge energy = level rise, price = amount moved, pickup stamped at the '
           'step start). Proved over ALL finite histories, any controller (C19_events_explain_vehicles): per vehicle the move events\' distances sum to the odometer growth and the charge events\' energies to the growth of energy_gained; '
           'pickup / cancel / add events vs the waiting map: C03_ledger_over_histories. PARTIAL: station-load events, summary counts and the file round-trip decided by the log engine + monitors.',
